@@ -39,6 +39,7 @@ import (
 	"sort"
 	"strconv"
 	"strings"
+	"runtime"
 	"sync"
 	"sync/atomic"
 	"syscall"
@@ -1304,6 +1305,48 @@ func (env *c20env) lockProbe() {
 	}
 }
 
+// lockStress: k goroutines loop acquireLock/releaseLock on one path; an occupancy counter inside the critical
+// section must never exceed 1 (mutual exclusion with two or more waiters at a release - a single waiter
+// cannot expose a weakened "is it still my file" re-check). Verdict by counter, bounded by iterations.
+func (env *c20env) lockStress() {
+	rep := env.rep
+	dir := filepath.Join(env.work, "lockstress")
+	os.MkdirAll(dir, 0o755)
+	lp := filepath.Join(dir, "dst.lock")
+	const workers = 4
+	iters := vN(250, 2500)
+	var inside, overlaps, acquired int64
+	var wg sync.WaitGroup
+	for w := 0; w < workers; w++ {
+		wg.Add(1)
+		go func() {
+			defer wg.Done()
+			for i := 0; i < iters; i++ {
+				f, err := acquireLock(lp)
+				if err != nil {
+					continue
+				}
+				atomic.AddInt64(&acquired, 1)
+				if atomic.AddInt64(&inside, 1) != 1 {
+					atomic.AddInt64(&overlaps, 1)
+				}
+				runtime.Gosched()
+				atomic.AddInt64(&inside, -1)
+				releaseLock(f)
+			}
+		}()
+	}
+	wg.Wait()
+	os.RemoveAll(dir)
+	rep.Eval(int(acquired))
+	rep.Extra["lockstress_acquisitions"] = acquired
+	rep.Extra["lockstress_overlaps"] = overlaps
+	rep.Sig("lockstress")
+	if overlaps > 0 {
+		rep.Fail("lock:exclusion:overlap", "lockstress", fmt.Sprintf("%d of %d critical sections entered through acquireLock overlapped with another holder of the same lock path (%d goroutines looping acquire/release)", overlaps, acquired, workers), nil)
+	}
+}
+
 // ---------------------------------------------------------------- stage: concurrent requests
 
 type c20round struct {
@@ -1951,6 +1994,7 @@ func TestVerifC20Conc(t *testing.T) {
 	seed := vSeed()
 	t0 := time.Now()
 	env.lockProbe()
+	env.lockStress()
 	t1 := time.Now()
 	env.conc(rand.New(rand.NewSource(seed*1000003 + 3)))
 	rep.Extra["seconds_lockprobe"] = int(t1.Sub(t0).Seconds())
